@@ -14,15 +14,17 @@ RULE = ("Base reactions whose outcome is composition-determined (curated balance
         "reactions) each with 4-8 drawn equivalent spellings: drawn atom order (RenumberAtoms + non-canonical writer), "
         "kekule form, all-bonds-explicit, all-H-explicit, drawn atom-map numbers, drawn molecule order within each "
         "side. Base and variants are run together; metamorphic oracle: same (solved, method) for every variant and, "
-        "unless a redox reagent template / placeholder molecule ([H], [O], [H][H], any reaction_template.json "
-        "compound) is among the added molecules of either run, identical per-side multisets of added molecules. "
+        "identical per-side multisets of added molecules unless the two runs differ ONLY in molecules of "
+        "reaction_template.json (plus the placeholders [H], [O], [H][H]) and at least one differing molecule is a "
+        "Cr/Mn/B/Al/S reagent of such a template (= a different choice of redox reagent template). "
         "Non-trivial = variant string differs from the base string and the base outcome is rule-based; distinct = "
         "distinct variant strings.")
 ASSUMPTIONS = [
     "every variant is verified by the oracle to consist of the same molecules as the base (canonical SMILES, maps "
     "cleared) before it is used; otherwise it is replaced by the base spelling",
     "base reactions whose own outcome is mcs-based or declined are outside the property's scope (counted, not judged)",
-    "choice of redox reagent template is excluded by the statement: such pairs are compared by verdict only",
+    "choice of redox reagent template is excluded by the statement: pairs whose additions differ only by template "
+    "molecules including an actual reagent are compared by verdict only",
 ]
 
 _TEMPLATE_SMILES = None
@@ -82,10 +84,35 @@ def duplicated_molecule_reaction(draw):
     return a + ">>" + ".".join(pb), tags + ["duplicated-molecule"]
 
 
+_RO = ["CC", "CCC", "C1CCCCC1", "c1ccccc1", "CC(C)", "c1ccccc1C", "CCS", "OCC"]
+_R2 = ["C", "CC", "CCC", "C=CC", "c1ccccc1C"]
+
+
+@st.composite
+def hydrogen_releasing_reaction(draw):
+    """deprotonations by a hydride / alkali metal (Williamson-type alkylations, alkoxide formation): the rule-based stage
+    sets hydrogen free and its follow-up depends on WHICH molecules the reactant side holds, not on where they stand"""
+    r = draw(st.sampled_from(_RO))
+    metal = draw(st.sampled_from(["Na", "K", "Li"]))
+    if draw(st.booleans()):
+        r2, x = draw(st.sampled_from(_R2)), draw(st.sampled_from(["Br", "I", "Cl"]))
+        base = draw(st.sampled_from(["[H-].[%s+]" % metal, "[%s]" % metal]))
+        reactants = [r + "O", r2 + x] + base.split(".")
+        products = [r + "O" + r2]
+    else:
+        reactants = [r + "O", "[%s]" % metal]
+        products = [r + "[O-]", "[%s+]" % metal]
+    if draw(st.integers(0, 2)) == 0:
+        reactants.append(draw(st.sampled_from(["C1CCOC1", "CN(C)C=O", "O"])))   # a solvent molecule standing by
+        products.append(reactants[-1])
+    reactants = list(draw(st.permutations(reactants)))
+    return ".".join(reactants) + ">>" + ".".join(products), ["hydrogen-releasing"]
+
+
 @st.composite
 def spelling_case(draw):
     base, tags = draw(st.one_of(
-        small_drop_reaction(), small_drop_reaction(), gen.template_reaction(),
+        small_drop_reaction(), small_drop_reaction(), gen.template_reaction(), hydrogen_releasing_reaction(),
         gen.with_markers(st.one_of(small_drop_reaction(), gen.template_reaction()), max_markers=1),
         gen.shared_reagent_union(), duplicated_molecule_reaction(),
         gen.indexed(gen.load_reactions_capped("balanced", 40, 5)).map(lambda r: (r, ["balanced"])),
@@ -133,8 +160,16 @@ def check_case(case, spec=None):
     ad0 = pp.added_molecules(base, r0["reaction"])
     tmpl = template_smiles()
 
-    def uses_template(ad):
-        return any(m in tmpl for side in ad for m in side[0])
+    def reagent(m):
+        return m in tmpl and any(el in m for el in ("Cr", "Mn", "B", "Al", "S"))
+
+    def template_choice(ad_a, ad_b):
+        """the two runs differ only in molecules of the redox templates AND at least one differing molecule is an actual
+        reagent of such a template (placeholders / water / salts alone are not a 'choice of reagent template')"""
+        diff = []
+        for k in (0, 1):
+            diff += list((ad_a[k][0] - ad_b[k][0]).elements()) + list((ad_b[k][0] - ad_a[k][0]).elements())
+        return bool(diff) and all(m in tmpl for m in diff) and any(reagent(m) for m in diff)
     for v, r in zip(variants, rows[1:]):
         out = r.get("solved_by") if r.get("solved") else "declined"
         kinds = []
@@ -160,8 +195,8 @@ def check_case(case, spec=None):
         if ad is None or ad0 is None:
             res.fail("output-malformed", "same additions", base=base, variant=v, variant_reaction=r.get("reaction"))
             continue
-        if uses_template(ad) or uses_template(ad0):
-            res.tag("template-involved(verdict only)")
+        if template_choice(ad, ad0):
+            res.tag("template-choice-differs(verdict only)")
         else:
             for k in (0, 1):
                 if ad[k][0] != ad0[k][0] or ad[k][1] != ad0[k][1]:
